@@ -12,9 +12,12 @@ def gen_structured(tape, *, kinds=("uniform", "rectilinear", "esri"), max_dim=3,
     kinds = [k for k in kinds if dim in (None, 2) or k != "esri"]
     kind = tape.choice(list(kinds))
     if kind == "esri":
-        return {"type": "esri", "ncols": tape.rng_int(1, max_len - 1), "nrows": tape.rng_int(1, max_len - 1),
-                "cellsize": tape.choice([1.0, 0.5, 2.0]), "xll": tape.choice([0.0, 10.0, -3.5]),
-                "yll": tape.choice([0.0, -2.0, 7.0]), "order": tape.choice(["C", "F"])}
+        sp = {"type": "esri", "ncols": tape.rng_int(1, max_len - 1), "nrows": tape.rng_int(1, max_len - 1),
+              "cellsize": tape.choice([1.0, 0.5, 2.0]), "xll": tape.choice([0.0, 10.0, -3.5]),
+              "yll": tape.choice([0.0, -2.0, 7.0]), "order": tape.choice(["C", "F"])}
+        if tape.chance(1, 5):
+            sp["cast"] = tape.choice(["uniform", "rectilinear", "uniform+rectilinear"])
+        return sp
     dim = tape.rng_int(1, max_dim) if dim is None else dim
     lo = 1 if allow_degenerate else 2
     dims = [tape.rng_int(max(lo, min_len), max_len) for _ in range(dim)]
@@ -32,6 +35,8 @@ def gen_structured(tape, *, kinds=("uniform", "rectilinear", "esri"), max_dim=3,
         if cube:
             sp["spacing"] = [sp["spacing"][0]] * dim
             sp["origin"] = [sp["origin"][0]] * dim
+        if tape.chance(1, 5):
+            sp["cast"] = "rectilinear"       # the same grid obtained through the library's own cast
     else:
         axes = []
         for d in dims:
@@ -44,6 +49,10 @@ def gen_structured(tape, *, kinds=("uniform", "rectilinear", "esri"), max_dim=3,
         if cube:
             axes = [list(axes[0]) for _ in range(dim)]
         sp["axes"] = axes
+    if tape.chance(1, 6):
+        # the grid object was first used with the other data location (its points, shape and size were read) and
+        # then switched - in place or on a copy
+        sp["relocated"] = tape.choice(["inplace", "copy"])
     return sp
 
 
@@ -54,11 +63,13 @@ def relayout(tape, sp):
         base = {"type": "uniform", "dims": [sp["ncols"] + 1, sp["nrows"] + 1], "spacing": [sp["cellsize"]] * 2,
                 "origin": [sp["xll"], sp["yll"]], "loc": "cells"}
     else:
-        base = {k: v for k, v in sp.items() if k not in ("order", "rev", "inc")}
+        base = {k: v for k, v in sp.items() if k not in ("order", "rev", "inc", "cast", "relocated")}
     dim = len(base["dims"])
     base["order"] = tape.choice(["F", "C"])
     base["rev"] = tape.chance(1, 2)
     base["inc"] = [not tape.chance(1, 2) for _ in range(dim)]
+    if base["type"] == "uniform" and tape.chance(1, 5):
+        base["cast"] = "rectilinear"
     return base
 
 
@@ -68,6 +79,24 @@ def _loc(name):
 
 
 def make_grid(sp):
+    if sp and sp.get("relocated"):
+        other = "points" if sp["loc"] == "cells" else "cells"
+        g = _make_grid(dict(sp, loc=other))
+        _ = (g.data_points, g.data_shape, g.data_size, g.data_axes)
+        if sp["relocated"] == "copy":
+            g = g.copy()
+        g.data_location = _loc(sp["loc"])
+    else:
+        g = _make_grid(sp)
+    for step in (sp or {}).get("cast", "").split("+"):
+        if step == "uniform":
+            g = g.to_uniform()
+        elif step == "rectilinear":
+            g = g.to_rectilinear()
+    return g
+
+
+def _make_grid(sp):
     if sp is None:
         return fm.NoGrid()
     t = sp["type"]
